@@ -115,6 +115,50 @@ def fetch (mode : Mode) (h : Bytes) (paths : List Path) (localIdx : Nat) (localR
       | .remote => ⟨none, 0, l ++ contacted localIdx localResp⟩
       | .next => ⟨none, 1, l ++ contacted localIdx localResp⟩
 
+/-! ### the state of the manifest itself -/
+
+/-- what the CLI can do with the manifest it was handed -/
+structure MState where
+  /-- `protocol::decode_manifest` succeeds: only then does the CLI know hints and `chunk_hash` -/
+  decodable : Bool
+  /-- `manifest_expired`: `expires_at <= now` at the time of the fetch -/
+  expired : Bool
+  /-- `decrypt_chunk_with_manifest` can rebuild the chunk key: `threshold > 0` and enough shards -/
+  keyOk : Bool
+  /-- the metadata names the publisher (`publisher_peer`, `publisher_public`), needed for a transport handshake -/
+  publisher : Bool
+  deriving DecidableEq, Repr
+
+/-- What a path amounts to for this manifest.  `attempt_transport_hint` refuses to dial when the publisher identity is
+missing or the manifest has expired (the endpoint is then never contacted, like one that is down); a chunk that cannot
+be decrypted is a failed attempt.  The control paths do not look at the manifest before asking. -/
+def effResp (m : MState) (k : Kind) (r : Resp) : Resp :=
+  if isTransportKind k then
+    if m.publisher && !m.expired then
+      match r with
+      | .payload b => if m.keyOk then .payload b else .fail
+      | .okNoPayload => .fail
+      | r => r
+    else .down
+  else r
+
+def view (m : MState) (p : Path) : Path := { p with resp := effResp m p.kind p.resp }
+
+/-- The manifest cannot be decoded: no hints, no hash.  A direct-only mode is an error; otherwise the URI is handed to
+the local daemon, whose payload — which nothing could be compared with — is refused (after the repair
+`fixes/C30-refuse-unverifiable-payload.patch`); a payload-less success is reported as before. -/
+def fetchUndecodable (mode : Mode) (localIdx : Nat) (localResp : Resp) : Result :=
+  if mode.directOnly then ⟨none, 1, []⟩
+  else
+    match localResp with
+    | .okNoPayload => ⟨none, 0, contacted localIdx localResp⟩
+    | r => ⟨none, 1, contacted localIdx r⟩
+
+/-- the whole command, for a manifest in state `m` -/
+def fetchM (m : MState) (mode : Mode) (h : Bytes) (paths : List Path) (localIdx : Nat) (localResp : Resp) : Result :=
+  if m.decodable then fetch sha mode h (paths.map (view m)) localIdx localResp
+  else fetchUndecodable mode localIdx localResp
+
 /-- A response whose payload does not hash to `h`, replaced by an outright failure. -/
 def neutral (h : Bytes) : Resp → Resp
   | .payload b => if sha b = h then .payload b else .fail
